@@ -115,6 +115,9 @@ func (s *Solver) Pop() {
 
 func (s *Solver) Level() int { return len(s.scopes) - 1 }
 
+// Dead reports whether the solver process is gone.
+func (s *Solver) Dead() bool { return s.dead }
+
 func (s *Solver) isDefined(id int) bool {
 	for _, m := range s.scopes {
 		if m[id] {
